@@ -1,14 +1,23 @@
 #!/bin/bash
 # seedtest.sh <patch.diff> <out-log> <check-id>[:tier] ...
 # Applies a seeded change to /repo, runs the given checks, reverts /repo.
+# The evidence files of the checks are put back afterwards (they describe the
+# unchanged tree) and the generated harness crate is regenerated from the
+# reverted tree.
 patch=$1; log=$2; shift 2
 cd /repo || exit 2
 git diff --quiet || { echo "/repo is dirty" >&2; exit 2; }
 git apply "$patch" || { echo "patch does not apply" >&2; exit 2; }
 : > "$log"
+keep=$(mktemp -d /verif/.cache/seedtest.XXXXXX)
 for c in "$@"; do
   id=${c%%:*}; tier=${c#*:}; [ "$tier" = "$c" ] && tier=quick
+  [ -f /verif/evidence/$id.json ] && cp /verif/evidence/$id.json "$keep/$id.json"
   echo "=== $id $tier" >> "$log"
   (cd /verif && ./bin/check $id --tier $tier >> "$log" 2>&1; echo "exit=$?" >> "$log")
+  [ -f /verif/evidence/$id.json ] && cp /verif/evidence/$id.json "$log.$id.evidence.json"
+  [ -f "$keep/$id.json" ] && cp "$keep/$id.json" /verif/evidence/$id.json
 done
+rm -rf "$keep"
 git -C /repo checkout -- .
+(cd /verif && python3 lib/corpus.py > /dev/null 2>&1)
